@@ -68,16 +68,18 @@ func runC06(args []string) {
 				// encoding can a decoder that allocates for the announced count exceed the bound
 				vb := codec.NewVG(t.Ctx, r.Seed)
 				vb.BigN = 20000
+				// candidates are generated and encoded one at a time (each is several MB as an abstract value)
 				var best *encVal
-				for _, e := range encodeValues(ch, t, vb.RecordsRich(t.Def, 8)) {
-					e := e
-					if best == nil || len(e.B) > len(best.B) {
-						best = &e
+				vb.EachRich(t.Def, 6, func(cv any) bool {
+					if es := encodeValues(ch, t, []any{cv}); len(es) == 1 && len(es[0].B) > 100000 {
+						best = &es[0]
+						return false
 					}
-				}
+					return true
+				})
 				if best != nil && len(best.B) > 100000 {
 					evs = append(evs, *best)
-					r.Hist("big-container value swept (" + t.Def.Name + ")")
+					r.Hist(fmt.Sprintf("big-container value swept (%s, %d KiB encoding)", t.Def.Name, len(best.B)>>10))
 				}
 			}
 			for vi, ev := range evs {
